@@ -418,12 +418,13 @@ theorem toks_head_off : ∀ (o : OT) (ind : Nat), ∃ w rest, o.toks ind = w :: 
     · exact ⟨⟨1, beginText, so, ind⟩, _, by simp only [OT.toks, headToks, if_true, List.cons_append, List.nil_append]; rfl, rfl⟩
 
 mutual
-/-- value-level conditions BEFORE the offsets are bumped: as `OT.lex`, but a line comment only needs a line break behind
-    it when it is the last item of its block (then it is the `end_offset` of the enclosing `/end` that counts) -/
+/-- value-level conditions BEFORE the offsets are bumped: as `OT.lex`, but nothing is asked of the offsets behind a line
+    comment any more: inside a tagged part the writer bumps the start offset of the next item, and (second `fix:`
+    commit, exact `ends_in_line_comment`) the end offset of the enclosing `/end` if the comment is the last item of its
+    block (`fixEo_pos_of_last_cmt`). Only the last ROOT item must not be a line comment (`streamLex_of_lexW`). -/
 def OT.lexW : OT → Prop
-  | .node _ tag blk _ _ eo fields items =>
+  | .node _ tag blk _ _ _ fields items =>
     IdentText tag ∧ (blk = true → tag ≠ "A2ML".toList) ∧ (∀ f ∈ fields, FieldLex f) ∧ OT.lexWL items ∧
-      (blk = true → ∀ text off, items.getLast? = some (.cmt text off) → isLineCmt text = true → 1 ≤ eo) ∧
       (blk = false → items = [])
   | .cmt text _ => CommentText text
 def OT.lexWL : List OT → Prop
@@ -441,7 +442,186 @@ theorem fixL_head_off (alc : Bool) : ∀ (x : OT) (xs : List OT), ∃ x' xs', OT
     x'.offOf = bumpOff alc x.offOf
   | .cmt text off, xs => ⟨.cmt text (bumpOff alc off), OT.fixL (isLineCommentText text) xs, by simp [OT.fixL], rfl⟩
   | .node arm tag blk ty so eo fields items, xs =>
-    ⟨.node arm tag blk ty (bumpOff alc so) eo fields (OT.fixL false items), OT.fixL false xs, by simp [OT.fixL], rfl⟩
+    ⟨.node arm tag blk ty (bumpOff alc so) (OT.fixEo blk eo fields (OT.fixL false items)) fields (OT.fixL false items),
+      OT.fixL false xs, by simp [OT.fixL], rfl⟩
+
+/-- the end offset the writer uses is ≥ 1 if the recorded one is, or if the writer sees a line comment at the end -/
+theorem fixEo_pos {blk : Bool} {eo : Nat} {fields : List Val} {items : List OT} (hb : blk = true)
+    (h : 1 ≤ eo ∨ OT.endsLC fields items = true) : 1 ≤ OT.fixEo blk eo fields items := by
+  unfold OT.fixEo
+  split
+  · exact Nat.le_refl 1
+  · rename_i hn
+    rcases h with h | h
+    · exact h
+    · by_cases h0 : eo = 0
+      · exact absurd ⟨hb, h0, h⟩ hn
+      · omega
+
+theorem fixEo_of_pos {blk : Bool} {eo : Nat} {fields : List Val} {items : List OT} (h : 1 ≤ eo) :
+    OT.fixEo blk eo fields items = eo := by
+  unfold OT.fixEo
+  rw [if_neg (by intro h'; omega)]
+
+theorem fixEo_kw {eo : Nat} {fields : List Val} {items : List OT} : OT.fixEo false eo fields items = eo := by
+  simp [OT.fixEo]
+
+theorem toksL_append (ind : Nat) : ∀ (xs ys : List OT), OT.toksL ind (xs ++ ys) = OT.toksL ind xs ++ OT.toksL ind ys
+  | [], _ => by simp [OT.toksL]
+  | x :: xs, ys => by simp only [List.cons_append, OT.toksL, toksL_append ind xs ys, List.append_assoc]
+
+theorem le_bumpOff (alc : Bool) (n : Nat) : n ≤ bumpOff alc n := by
+  unfold bumpOff; split <;> omega
+
+/-- the last item of the bumped list is the bumped last item -/
+theorem fixL_getLast_cmt {text : List Char} {off : Nat} : ∀ (xs : List OT) (alc : Bool),
+    xs.getLast? = some (.cmt text off) → ∃ off', (OT.fixL alc xs).getLast? = some (.cmt text off') ∧ off ≤ off'
+  | [], _, h => by simp at h
+  | [.cmt t o], alc, h => by
+    simp only [List.getLast?_singleton, Option.some.injEq, OT.cmt.injEq] at h
+    obtain ⟨rfl, rfl⟩ := h
+    exact ⟨bumpOff alc o, by simp [OT.fixL], le_bumpOff alc o⟩
+  | [.node _ _ _ _ _ _ _ _], _, h => by simp at h
+  | .cmt t o :: y :: ys, alc, h => by
+    rw [List.getLast?_cons_cons] at h
+    obtain ⟨off', h1, h2⟩ := fixL_getLast_cmt (y :: ys) (isLineCommentText t) h
+    obtain ⟨y', ys', hfix, -⟩ := fixL_head_off (isLineCommentText t) y ys
+    refine ⟨off', ?_, h2⟩
+    rw [OT.fixL, hfix, List.getLast?_cons_cons, ← hfix]; exact h1
+  | .node arm tag blk ty so eo fields items :: y :: ys, alc, h => by
+    rw [List.getLast?_cons_cons] at h
+    obtain ⟨off', h1, h2⟩ := fixL_getLast_cmt (y :: ys) false h
+    obtain ⟨y', ys', hfix, -⟩ := fixL_head_off false y ys
+    refine ⟨off', ?_, h2⟩
+    rw [OT.fixL, hfix, List.getLast?_cons_cons, ← hfix]; exact h1
+
+theorem streamLex_of_N' : ∀ (ws : List WTok) (prev next : Option WTok), StreamLexN prev ws next → StreamLex prev ws
+  | [], _, _, _ => trivial
+  | w :: rest, prev, next, ⟨h1, h2, h3, h4⟩ =>
+    ⟨h1, h2, fun h6 hl w' rest' hr => h3 h6 hl w' (by rw [hr]; rfl), streamLex_of_N' rest (some w) next h4⟩
+
+/-- the kinds of parameter tokens: identifier, string, number -/
+theorem fieldsToks_tys (ind : Nat) (fs : List Val) : ∀ w ∈ fieldsToks ind fs, w.ty = 0 ∨ w.ty = 4 ∨ w.ty = 5 := by
+  intro w hw
+  simp only [fieldsToks, List.mem_flatMap] at hw
+  obtain ⟨f, _, hwf⟩ := hw
+  have sc : ∀ (v : Val), ∀ w ∈ scalarToks ind v, w.ty = 0 ∨ w.ty = 4 ∨ w.ty = 5 := by
+    intro v w hw
+    cases v <;> simp only [scalarToks, List.mem_singleton, List.not_mem_nil] at hw <;> subst hw <;> simp
+  have el : ∀ (v : Val), ∀ w ∈ elemToks ind v, w.ty = 0 ∨ w.ty = 4 ∨ w.ty = 5 := by
+    intro v w hw
+    cases v with
+    | block ty info fields ch cm =>
+      simp only [elemToks, List.mem_flatMap] at hw
+      obtain ⟨x, _, hx⟩ := hw; exact sc x w hx
+    | ident s o => exact sc (.ident s o) w hw
+    | str s o => exact sc (.str s o) w hw
+    | int a b o wd => exact sc (.int a b o wd) w hw
+    | dbl s o => exact sc (.dbl s o) w hw
+    | enum s o => exact sc (.enum s o) w hw
+    | arr vs => exact sc (.arr vs) w hw
+    | seq vs => exact sc (.seq vs) w hw
+  cases f with
+  | arr vs => simp only [fieldToks, List.mem_flatMap] at hwf; obtain ⟨x, _, hx⟩ := hwf; exact el x w hx
+  | seq vs => simp only [fieldToks, List.mem_flatMap] at hwf; obtain ⟨x, _, hx⟩ := hwf; exact el x w hx
+  | block ty info fields ch cm => exact el (.block ty info fields ch cm) w hwf
+  | ident s o => exact el (.ident s o) w hwf
+  | str s o => exact el (.str s o) w hwf
+  | int a b o wd => exact el (.int a b o wd) w hwf
+  | dbl s o => exact el (.dbl s o) w hwf
+  | enum s o => exact el (.enum s o) w hwf
+
+theorem isLC_of_ty {w : WTok} (h : w.ty ≠ 6) : w.isLC = false := by
+  unfold WTok.isLC
+  have : (w.ty == 6) = false := by simpa using h
+  rw [this, Bool.false_and]
+
+/-- is the last item a `//` comment? -/
+def OT.lastLC (items : List OT) : Bool :=
+  match items.getLast? with
+  | some (.cmt text _) => isLineCmt text
+  | _ => false
+
+/-- the last token of an item that is not a comment is not a comment (a keyword has no items) -/
+theorem node_last_tok (ind arm : Nat) (tag : List Char) (blk : Bool) (ty so eo : Nat) (fields : List Val) (items : List OT)
+    (hkw : blk = false → items = []) :
+    ∀ w, ((OT.node arm tag blk ty so eo fields items).toks ind).getLast? = some w → w.ty ≠ 6 := by
+  intro w hw
+  cases blk with
+  | true =>
+    simp only [OT.toks, closeToks, if_true] at hw
+    rw [← List.append_assoc, ← List.append_assoc, List.getLast?_append] at hw
+    simp at hw
+    subst hw; simp
+  | false =>
+    rw [hkw rfl] at hw
+    simp only [OT.toks, OT.toksL, closeToks, headToks, Bool.false_eq_true, if_false, List.append_nil] at hw
+    have hm := List.mem_of_getLast? hw
+    rcases List.mem_append.1 hm with h | h
+    · simp only [List.mem_singleton] at h; subst h; simp
+    · rcases fieldsToks_tys _ _ w h with h | h | h <;> omega
+
+/-- **the last token of a block's content** is a `//` comment iff the last item is one -/
+theorem body_last_isLC (fields : List Val) (items : List OT)
+    (hkw : ∀ arm tag blk ty so eo f its, items.getLast? = some (.node arm tag blk ty so eo f its) → blk = false → its = []) :
+    (match (fieldsToks 0 fields ++ OT.toksL 0 items).getLast? with | some w => w.isLC | none => false) =
+      OT.lastLC items := by
+  rcases List.eq_nil_or_concat items with rfl | ⟨init, x, rfl⟩
+  · simp only [OT.toksL, List.append_nil, OT.lastLC, List.getLast?_nil]
+    cases hl : (fieldsToks 0 fields).getLast? with
+    | none => rfl
+    | some w =>
+      have := fieldsToks_tys 0 fields w (List.mem_of_getLast? hl)
+      exact isLC_of_ty (by omega)
+  · rw [List.concat_eq_append] at hkw ⊢
+    have hne : x.toks 0 ≠ [] := by
+      obtain ⟨w, rest, h, -⟩ := toks_head_off x 0
+      rw [h]; exact List.cons_ne_nil _ _
+    have hlast : (fieldsToks 0 fields ++ OT.toksL 0 (init ++ [x])).getLast? = (x.toks 0).getLast? := by
+      rw [toksL_append, ← List.append_assoc]
+      simp only [OT.toksL, List.append_nil]
+      rw [List.getLast?_append, List.getLast?_eq_some_getLast hne]; rfl
+    rw [hlast]
+    cases x with
+    | cmt text off =>
+      simp [OT.toks, OT.lastLC, WTok.isLC]
+    | node arm tag blk ty so eo f its =>
+      have h1 : OT.lastLC (init ++ [OT.node arm tag blk ty so eo f its]) = false := by simp [OT.lastLC]
+      rw [h1, List.getLast?_eq_some_getLast hne]
+      exact isLC_of_ty (node_last_tok 0 arm tag blk ty so eo f its
+        (hkw arm tag blk ty so eo f its (by simp)) _ (List.getLast?_eq_some_getLast hne))
+
+/-- **`ends_in_line_comment` on the content of a block** whose items are lexable: true iff the last item is a `//`
+    comment. (`next`: any token behind the content.) -/
+theorem endsLC_of_lexL (fields : List Val) (items : List OT) (next : Option WTok) (hf : ∀ f ∈ fields, FieldLex f)
+    (hl : OT.lexL 0 items next)
+    (hkw : ∀ arm tag blk ty so eo f its, items.getLast? = some (.node arm tag blk ty so eo f its) → blk = false → its = []) :
+    OT.endsLC fields items = OT.lastLC items := by
+  have hp0 : ∀ p, (none : Option WTok) = some p → p.ty ≠ 1 := fun _ h => by cases h
+  have h1 : StreamLexN none (fieldsToks 0 fields ++ OT.toksL 0 items) next :=
+    streamLexN_append _ _ none next (streamLexN_plain _ _ _ (fieldsToks_lex 0 fields hf) hp0)
+      (lex_toksL items 0 _ next hl (prev_ok_of (noBeginLast_of_all (fieldsToks_ty 0 fields)) hp0))
+  unfold OT.endsLC
+  rw [endsInLineComment_stream _ none (streamLex_of_N' _ _ _ h1)]
+  exact body_last_isLC fields items hkw
+
+theorem fixL_append : ∀ (xs ys : List OT) (alc : Bool), ∃ alc', OT.fixL alc (xs ++ ys) = OT.fixL alc xs ++ OT.fixL alc' ys
+  | [], ys, alc => ⟨alc, by simp [OT.fixL]⟩
+  | .cmt text off :: xs, ys, alc => by
+    obtain ⟨alc', h⟩ := fixL_append xs ys (isLineCommentText text)
+    exact ⟨alc', by simp only [List.cons_append, OT.fixL, h]⟩
+  | .node arm tag blk ty so eo fields items :: xs, ys, alc => by
+    obtain ⟨alc', h⟩ := fixL_append xs ys false
+    exact ⟨alc', by simp only [List.cons_append, OT.fixL, h]⟩
+
+/-- bumping offsets does not change what the last item is -/
+theorem lastLC_fixL (items : List OT) (alc : Bool) : OT.lastLC (OT.fixL alc items) = OT.lastLC items := by
+  rcases List.eq_nil_or_concat items with rfl | ⟨init, x, rfl⟩
+  · simp [OT.fixL]
+  · rw [List.concat_eq_append]
+    obtain ⟨alc', h⟩ := fixL_append init [x] alc
+    rw [h]
+    cases x <;> simp [OT.fixL, OT.lastLC]
 
 mutual
 theorem lexW_items : ∀ (o : OT), o.lexW → ∀ (ind : Nat) (next : Option WTok),
@@ -483,17 +663,27 @@ theorem lexW_list : ∀ (xs : List OT), OT.lexWL xs → ∀ (ind : Nat) (alc : B
     simp only [OT.lexWL] at h
     have hnode := h.1
     simp only [OT.lexW] at hnode
-    obtain ⟨htag, hA, hf, _, hend, hkw⟩ := hnode
+    obtain ⟨htag, hA, hf, _, hkw⟩ := hnode
     simp only [OT.fixL, OT.lexL, OT.lex]
     refine ⟨⟨htag, hA, hf, ?_⟩, lexW_list xs h.2 ind false next ?_⟩
     · have := lexW_items (.node arm tag blk ty so eo fields items) h.1 (ind + 1)
-        (if blk = true then some ⟨2, endText, eo, ind⟩ else (OT.toksL ind (OT.fixL false xs)).head? <|> next) (by
+        (if blk = true then some ⟨2, endText, OT.fixEo blk eo fields (OT.fixL false items), ind⟩
+          else (OT.toksL ind (OT.fixL false xs)).head? <|> next) (by
           intro t o hlast hline w' hw'
           cases hb : blk with
           | true =>
             rw [hb] at hw'; simp only [if_true, Option.some.injEq] at hw'
             subst hw'
-            exact hend hb t o hlast hline
+            -- the writer sees the comment at the end of the content: the `/end` gets a line break
+            have hl0 := lexW_items (.node arm tag blk ty so eo fields items) h.1 0 (some ⟨2, endText, 1, 0⟩)
+              (fun _ _ _ _ w' hw' => by cases hw'; exact Nat.le_refl 1)
+            simp only [OT.itemsOf] at hl0 hlast
+            obtain ⟨off', hlast', -⟩ := fixL_getLast_cmt items false hlast
+            have he := endsLC_of_lexL fields _ _ hf hl0 (by
+              intro a1 a2 a3 a4 a5 a6 a7 a8 hn
+              rw [hlast'] at hn; cases hn)
+            refine fixEo_pos rfl (Or.inr ?_)
+            rw [he]; simp [OT.lastLC, hlast', hline]
           | false =>
             have := hkw hb
             simp only [OT.itemsOf] at hlast
@@ -511,5 +701,48 @@ theorem streamLex_of_lexW (items : List OT) (h : OT.lexWL items)
     (hlast : ∀ text off, items.getLast? = some (.cmt text off) → isLineCmt text = false) :
     StreamLex none (OT.toksL 0 (OT.fixL false items)) :=
   streamLex_of_lexL _ (lexW_list items h 0 false none (fun t o hl hline => by rw [hlast t o hl] at hline; cases hline))
+
+/-- **`ends_in_line_comment` on the content of a block, as the writer writes it**: for lexable parameters and items it
+    is true iff the last item is a `//` comment -/
+theorem endsLC_fixL (fields : List Val) (items : List OT) (hf : ∀ f ∈ fields, FieldLex f) (hw : OT.lexWL items) :
+    OT.endsLC fields (OT.fixL false items) = OT.lastLC items := by
+  have hl := lexW_list items hw 0 false (some ⟨2, endText, 1, 0⟩)
+    (fun _ _ _ _ w' hw' => by cases hw'; exact Nat.le_refl 1)
+  rw [endsLC_of_lexL fields _ _ hf hl ?_, lastLC_fixL]
+  -- a keyword at the end has no items
+  intro arm tag blk ty so eo f its hn hb
+  rcases List.eq_nil_or_concat items with rfl | ⟨init, x, rfl⟩
+  · simp [OT.fixL] at hn
+  · rw [List.concat_eq_append] at hn hw
+    obtain ⟨alc', h⟩ := fixL_append init [x] false
+    rw [h] at hn
+    have hx : OT.lexW x := by
+      have : ∀ (l : List OT), OT.lexWL (l ++ [x]) → OT.lexW x := by
+        intro l
+        induction l with
+        | nil => intro h0; simp only [List.nil_append, OT.lexWL] at h0; exact h0.1
+        | cons y l ih => intro h0; simp only [List.cons_append, OT.lexWL] at h0; exact ih h0.2
+      exact this init hw
+    cases x with
+    | cmt t o => simp [OT.fixL] at hn
+    | node a1 a2 a3 a4 a5 a6 a7 a8 =>
+      simp only [OT.fixL, List.getLast?_append, List.getLast?_singleton, Option.some_or, Option.some.injEq,
+        OT.node.injEq] at hn
+      obtain ⟨-, -, rfl, -, -, -, -, rfl⟩ := hn
+      simp only [OT.lexW] at hx
+      rw [hx.2.2.2.2 hb]; simp [OT.fixL]
+
+/-- **the `/end` behind a `//` comment**: if the last item of a block is a line comment, the writer's end offset is ≥ 1,
+    whatever the recorded one is -/
+theorem fixEo_pos_of_last_cmt (eo : Nat) (fields : List Val) (items : List OT) (hf : ∀ f ∈ fields, FieldLex f)
+    (hw : OT.lexWL items) (h : OT.lastLC items = true) : 1 ≤ OT.fixEo true eo fields (OT.fixL false items) :=
+  fixEo_pos rfl (Or.inr (by rw [endsLC_fixL fields items hf hw, h]))
+
+/-- … and otherwise the recorded end offset is used -/
+theorem fixEo_of_not_last_cmt (blk : Bool) (eo : Nat) (fields : List Val) (items : List OT) (hf : ∀ f ∈ fields, FieldLex f)
+    (hw : OT.lexWL items) (h : OT.lastLC items = false) : OT.fixEo blk eo fields (OT.fixL false items) = eo := by
+  unfold OT.fixEo
+  rw [endsLC_fixL fields items hf hw, h]
+  simp
 
 end A2l.Tree
